@@ -16,4 +16,17 @@ func init() {
 			return chunk("main", "prod", n, pick(tier, 500, 12500), Job{Timeout: 30 * time.Minute})
 		},
 	})
+	register(&Plan{
+		Prop:  "C05",
+		Level: "exploration",
+		Rule: "cases = generated logfmt records (production process mode): logger name, any-bytes message, severity, caller flag, 0-24 attributes with legal unique logfmt keys " +
+			"(random leading letter so that groups sort first/middle/last) and values of every supported kind incl. []byte, groups nested <= 3; each payload is tokenised by an independent " +
+			"logfmt tokenizer (strconv.Unquote for quoted values) and every pair compared with what was logged; non-trivial = decoded and matched AND (has attributes or non-plain message); distinct = by payload bytes",
+		Assumptions: []string{"strconv.Unquote (go1.23.5) decodes what a logfmt reader decodes", "production process mode (the multi-line error dump of testing mode is outside the statement)"},
+		Floors:      map[string]int64{"records_decoded": 100},
+		Jobs: func(tier string, seed int64) []Job {
+			n := pick(tier, 6000, 400000)
+			return chunk("main", "prod", n, pick(tier, 500, 12500), Job{Timeout: 30 * time.Minute})
+		},
+	})
 }
